@@ -925,7 +925,7 @@ DENSE_UNSUPPORTED_ONLINE = [("t1", "ev"), ("t1", "alw"), ("t2", "until"), ("tb1"
 def wf_stream(ctx):
     from .props import c17
     rng = ctx.subrng("wf-c")
-    for _ in range(ctx.budget(120, 2000)):
+    for _ in range(ctx.budget(300, 2000)):
         mon = rng.choice(["offc", "onc"])
         g = DGen(rng, VARS[:2], DENSE_ON if mon == "onc" else DENSE_OFF, max_bound=4)
         f = g.formula(rng.choice([1, 2, 3]))
@@ -950,7 +950,16 @@ def wf_stream(ctx):
             sig = gen_signals(rng, vs)
         ctx.evaluations += 1
         ctx.count("kind:%s-%s%s" % ("bad" if bad else "ok", mon, "-pastified" if past else ""))
-        v = check_wf(ctx, mon, f, sig, bad, surplus, past)
+        cuts = None
+        if mon == "onc" and not bad and len(sig) > 0 and rng.random() < 0.6:
+            # the input arrives in several update() calls, per variable, a variable without new samples left out of a call
+            from .props import c05
+            allc = c05.chunkings(rng, sig, 8)
+            om = [c for c in allc if isinstance(c, dict) and c.get("@@omit")]
+            cuts = rng.choice(om) if om and rng.random() < 0.5 else rng.choice(allc)
+            ctx.count("ok-onc-chunked" + ("/per-variable" if isinstance(cuts, dict) else "") +
+                      ("/omitted" if isinstance(cuts, dict) and cuts.get("@@omit") else ""))
+        v = check_wf(ctx, mon, f, sig, bad, surplus, past, cuts)
         if v is None:
             ctx.traces_validated += 1
         else:
@@ -959,9 +968,19 @@ def wf_stream(ctx):
                 return
 
 
-def check_wf(ctx, mon, f, sig, bad, surplus, past=False):
+def check_wf(ctx, mon, f, sig, bad, surplus, past=False, cuts=None):
     text = spec_text(f)
     vs = sorted(sig)
+    if cuts:
+        from .props import c05 as _c05
+        _, out = run_online(f, sig, cuts, pastify=past)
+        rep = {"kind": "ok-onc", "pastify": past, "spec": text, "formula": F.to_proto(f), "signals": sig_rep(sig), "surplus": False,
+               "cuts": _c05.cuts_txt(cuts), "impl": out}
+        ctx.nontrivial.add((rep["kind"], text, str(rep["signals"]), str(rep["cuts"])))
+        if out[0] != "ok":
+            return Violation("dense online monitor%s: well-formed use (input fed in several update() calls, chunking %s) raised %r: %s"
+                             % (" after pastify()" if past else "", rep["cuts"], out[1:], text), rep, stream="wf-c")
+        return None
 
     def go():
         spec = impl.make_spec(mon, text, vs, extra_decl=["unused1"] if surplus else [])
@@ -985,8 +1004,12 @@ def check_wf(ctx, mon, f, sig, bad, surplus, past=False):
 
 def replay_wf(ctx, obj):
     mon = obj["kind"].split("-")[1]
+    cuts = obj.get("cuts") or None
+    if cuts:
+        cuts = {v: ([int(c) for c in cs] if v.startswith("@") else [Fraction(c) for c in cs]) for v, cs in cuts.items()} \
+            if isinstance(cuts, dict) else [Fraction(c) for c in cuts]
     v = check_wf(Ctx(ctx.id, ctx.tier, ctx.seed), mon, F.from_proto(obj["formula"]), sig_of_rep(obj["signals"]),
-                 obj["kind"].startswith("bad"), obj["surplus"], bool(obj.get("pastify")))
+                 obj["kind"].startswith("bad"), obj["surplus"], bool(obj.get("pastify")), cuts)
     return (v is None), (v.what if v else "outcome as required")
 
 
